@@ -286,7 +286,7 @@ pub fn worker_main(prop: &str, batch_seed: u64, start: u64, end: u64, stride: u6
         prop: prop.to_string(),
         batch_seed,
         audit,
-        minimise_budget: 1500,
+        minimise_budget: if prop == "C16" { 300 } else { 1200 },
     };
     let stdout = std::io::stdout();
     let mut out = std::io::BufWriter::with_capacity(1 << 12, stdout.lock());
@@ -321,6 +321,12 @@ pub fn worker_main(prop: &str, batch_seed: u64, start: u64, end: u64, stride: u6
                 // the state that matters was left by earlier runs of this worker thread: record which
                 f.extra.put("worker_history", J::obj().set("start", J::u(start)).set("stride", J::u(stride)).set("index", J::u(index)).set("verif_seed", J::u(batch_seed)));
             }
+            // report first, shrink afterwards: if shrinking kills this process the finding is not lost,
+            // and the supervisor does not mistake the time spent shrinking for a hanging run
+            let doc0 = replay_doc(prop, batch_seed, index, seed, &f, None);
+            let _ = writeln!(out, "V {}", doc0.to_string());
+            let _ = writeln!(out, "M {}", index);
+            let _ = out.flush();
             let (min, used) = if prop == "C12" || history_class {
                 (f.concrete.clone(), 0)
             } else {
@@ -335,6 +341,7 @@ pub fn worker_main(prop: &str, batch_seed: u64, start: u64, end: u64, stride: u6
             }
             let doc = replay_doc(prop, batch_seed, index, seed, &f2, if history_class { None } else { Some((&min, used)) });
             let _ = writeln!(out, "V {}", doc.to_string());
+            let _ = writeln!(out, "B {}", index);
             let _ = out.flush();
         }
         index += stride;
